@@ -31,6 +31,21 @@ def main():
     os.chdir(spec["cwd"])
     from molli.storage import Collection, UkvCollectionBackend
 
+    if spec.get("lock_delay"):
+        # a delay in front of every lock acquisition (an existing suspension point): widens the window between
+        # anything a process decided before asking for the lock and what it does once it holds it
+        import fasteners
+
+        for name in ("acquire_write_lock", "acquire_read_lock"):
+            orig = getattr(fasteners.InterProcessReaderWriterLock, name)
+
+            def delayed(self, *a, __orig=orig, **kw):
+                if rng.random() < 0.6:
+                    time.sleep(rng.random() * spec["lock_delay"])
+                return __orig(self, *a, **kw)
+
+            setattr(fasteners.InterProcessReaderWriterLock, name, delayed)
+
     log = open(spec["log"], "a", buffering=1)
     payload = spec.get("payload", "bytes")
     if payload == "mlib":
